@@ -11,6 +11,17 @@
 extern void verif_point_at(int site, void* addr);
 extern void verif_sync(int site);
 extern void verif_resnap(int site);
+extern void verif_loop_sync(int site);
+/* loop-head snapshot flag: a spec TU that defines VERIF_LOOP_FLAG before including anything gets `verif_snap_valid` framed and
+   pinned in every loop contract (see rt/verif_point.inc) */
+#ifdef VERIF_LOOP_FLAG
+extern int verif_snap_valid;
+#define VERIF_LOOP_ASSIGNS verif_snap_valid,
+#define VERIF_LOOP_INV (verif_snap_valid == 0)
+#else
+#define VERIF_LOOP_ASSIGNS
+#define VERIF_LOOP_INV 1
+#endif
 extern void* verif_point_ret(int site, void* addr); /* runs the point, returns addr */
 
 /* Function-style wrappers (no local declarations): CBMC type-checks the
